@@ -91,7 +91,8 @@ def check(cx):
     pings = [(e, r) for e, r in replies(wi) if in_arm(e, tp) and r['text'][0] == 'lit' and str(r['text'][1]).startswith('PING ')]
     arm_calls = [e for e in wi.events if in_arm(e, tp) and is_call(e, 'run_pong_timeout') and e.data['args'] == [CONN, CONFIG]]
     r3.instance('ping arm: PING line and run_pong_timeout(config)')
-    if len(pings) != 1 or len(arm_calls) != 1 or [a for a in atoms(arm_calls[0].pc) if 'poll_fn' not in repr(a)]:
+    if len(pings) != 1 or len(arm_calls) != 1 or [a for a in atoms(arm_calls[0].pc) if 'poll_fn' not in repr(a)] or \
+            [a for a in atoms(pings[0][0].pc) if 'poll_fn' not in repr(a)]:
         r3.violation('process_internal|ping-arm', 'the ping arm does not (unconditionally) send PING and arm the pong deadline', loc=pi)
     fr = cx.fn('run_pong_timeout')
     wr = cx.walk(fr, args=[SELF_, CFG])
